@@ -88,10 +88,12 @@ class Workload:
         if not self.noreply_mix:
             return
         r = self.rng.random()
-        if r < 0.35:
+        if r < 0.33:
             k["noreply"] = True
-        elif r < 0.7:
+        elif r < 0.66:
             k["noreply"] = False
+        elif r < 0.76:
+            k["noreply"] = None      # explicit None = "use the default"
 
     def key(self):
         return self.rng.choice(self.keys)
@@ -126,7 +128,7 @@ class Workload:
             key = self.key()
             a = [E(key), E(self.value(key)), E(rng.choice([b"1001", 1002, "1003", b"2001", b"7"]))]
             if rng.random() < 0.3:
-                k["noreply"] = rng.random() < 0.5
+                k["noreply"] = rng.choice([True, False, None])
         elif m == "get":
             a = [E(self.key())]
             if rng.random() < 0.3:
@@ -149,8 +151,8 @@ class Workload:
             key = rng.choice(sorted(self.numeric, key=repr)) if self.numeric and rng.random() < 0.7 \
                 else self.key()
             a = [E(key), rng.choice([1, 2, 10, 1000])]
-            if rng.random() < 0.3:
-                k["noreply"] = rng.random() < 0.5
+            if rng.random() < 0.4:
+                k["noreply"] = rng.choice([True, False, None])
         elif m == "touch":
             a = [E(self.key())]
             if rng.random() < 0.6:
@@ -185,6 +187,8 @@ def applicable_faults(kind):
         for k in SEND_FAULTS:
             out.append({"kind": k})
             out.append({"kind": k, "sent": 5})
+        out.append({"kind": "eintr"})               # interrupted system call, nothing / part of it written
+        out.append({"kind": "eintr", "sent": 5})
         return out
     if kind == "recv":
         return [{"kind": k} for k in RECV_FAULTS]
